@@ -6,8 +6,11 @@ ROOT = os.path.dirname(os.path.dirname(os.path.dirname(os.path.abspath(__file__)
 CACHE = os.path.join(ROOT, ".cache")
 COQ = os.path.join(ROOT, "coq")
 EXTRACT = os.path.join(CACHE, "extract")
-TARGET = os.path.join(CACHE, "target")
 REPO = os.environ.get("VERIF_REPO", "/repo")
+# one cargo target directory per source tree: two trees built into the same directory share the file name of the final binary
+# (target/release/pasfmt), and cargo does not link it again when it switches back to a tree whose build is still fresh - a run on
+# /repo after a run on a scratch tree (tools/seedcheck.py) would silently use the scratch tree's binary
+TARGET = os.path.join(CACHE, "target" if os.path.realpath(REPO) == "/repo" else "target-" + hashlib.sha1(os.path.realpath(REPO).encode()).hexdigest()[:8])
 NPROC = os.cpu_count() or 8
 
 ENV = dict(os.environ)
